@@ -171,14 +171,30 @@ func xmlEscape(s string) string {
 }
 
 // PhyloXML writes the trees as a PhyloXML document.
-func PhyloXML(ms []*ref.Node) string {
+func PhyloXML(ms []*ref.Node) string { return phyloXML(ms, false) }
+
+// PhyloXMLTaxonomy does the same but gives every second named node its name through a
+// <taxonomy> element (<scientific_name>, then <code>) instead of <name>, with other elements
+// (id, events, dates) the reader must skip.
+func PhyloXMLTaxonomy(ms []*ref.Node) string { return phyloXML(ms, true) }
+
+func phyloXML(ms []*ref.Node, taxonomy bool) string {
+	k := 0
 	var b strings.Builder
 	b.WriteString("<?xml version=\"1.0\" encoding=\"UTF-8\"?>\n<phyloxml xmlns=\"http://www.phyloxml.org\">\n")
 	var rec func(n *ref.Node, root bool, ind string)
 	rec = func(n *ref.Node, root bool, ind string) {
 		b.WriteString(ind + "<clade>\n")
 		if n.Name != "" {
-			b.WriteString(ind + " <name>" + xmlEscape(n.Name) + "</name>\n")
+			k++
+			switch {
+			case taxonomy && k%4 == 1:
+				b.WriteString(ind + " <taxonomy><id provider=\"ncbi\">" + strconv.Itoa(9000+k) + "</id><scientific_name>" + xmlEscape(n.Name) + "</scientific_name><code>IGNORED</code></taxonomy>\n")
+			case taxonomy && k%4 == 3:
+				b.WriteString(ind + " <taxonomy><code>" + xmlEscape(n.Name) + "</code></taxonomy>\n <events><speciations>1</speciations></events>\n")
+			default:
+				b.WriteString(ind + " <name>" + xmlEscape(n.Name) + "</name>\n")
+			}
 		}
 		if !root && n.Len != nil {
 			b.WriteString(ind + " <branch_length>" + strconv.FormatFloat(*n.Len, 'g', -1, 64) + "</branch_length>\n")
